@@ -465,3 +465,18 @@ def string_chunks_decode(H, _):
         r._object.flags = 0
         r.process_STYP(b"Amplifier" + term)
         H.check("STYP_selects_class_with_or_without_terminator", type(r._object).__name__ == "Amplifier", witness=repr(term))
+
+
+@contract("foreign_canary", ["C04"], targets=["rv.readers.module:ModuleReader.process_SMIC"], canary=True)
+def foreign_canary(H, _):
+    """False claim: the MIDI-out channel word decodes as unsigned for every 32-bit payload."""
+    import io
+
+    from rv.modules.amplifier import Amplifier
+    from rv.readers.module import ModuleReader
+
+    r = ModuleReader(io.BytesIO(b""), index=1)
+    r._object = Amplifier()
+    w = H.int("word", *K.U32)
+    H.call(r.process_SMIC, F.enc_u32(w))
+    H.check("canary_SMIC_is_unsigned", r._object.midi_out_channel == w)
